@@ -70,7 +70,8 @@ impl TryFrom<&str> for HpoTermId {
             return Err(HpoError::ParseIntError);
         }
         Ok(HpoTermId {
-            inner: s[3..].parse::<u32>()?,
+            // `get` instead of slicing: index 3 might not be a char boundary
+            inner: s.get(3..).ok_or(HpoError::ParseIntError)?.parse::<u32>()?,
         })
     }
 }
